@@ -2,7 +2,7 @@
 // the claim the proof does not carry (runtime panics, latency, memory).  A malformed stream against one
 // in-process server (memory store, AuthZEN and the Check query cache enabled so that context serialisation runs):
 //
-//	c19 <kind> <seed>        kind: check | write | model | list | misc | authzen | batch
+//	c19 <kind> <seed>        kind: check | write | model | list | misc | authzen | batch | numeric
 //
 // Every case derives, from its seed alone, a sequence of RPCs: a valid request of the kind with byte-level
 // mutations of its strings (separators, NUL, invalid UTF-8, 10 kB), hostile contexts (nesting 2 000 deep, 20 000
@@ -268,17 +268,55 @@ type obs struct {
 	worst    string
 	wms      int64
 	slow     []string
+	skipped  int
 	internal []string
 	big      []string
 	amax     uint64
 }
 
+// after a request overran the watchdog its goroutine may still burn CPU: the rest of the run only records that
+var abandoned = 0
+
 func (o *obs) do(name string, f func(ctx context.Context) error) {
+	if abandoned > 0 {
+		o.skipped++
+		return
+	}
 	var m0, m1 runtime.MemStats
 	runtime.ReadMemStats(&m0)
 	ctx, cancel := context.WithTimeout(context.Background(), 20*time.Second)
 	start := time.Now()
-	err := f(ctx)
+	type result struct {
+		err error
+		pan interface{}
+	}
+	done := make(chan result, 1)
+	go func() {
+		defer func() {
+			if p := recover(); p != nil {
+				done <- result{pan: fmt.Sprintf("%v @ %s", p, topFrames())}
+			}
+		}()
+		done <- result{err: f(ctx)}
+	}()
+	var err error
+	select {
+	case r := <-done:
+		if r.pan != nil {
+			cancel()
+			panic(r.pan)
+		}
+		err = r.err
+	case <-time.After(slowBound + 4*time.Second):
+		// uncancellable work: do not wait for it (finding F14 burnt minutes), and do not pile more on top
+		cancel()
+		abandoned++
+		o.n++
+		o.codes[name+":none"] = true
+		o.slow = append(o.slow, name+"(no-return-after-12s)")
+		o.worst, o.wms = name, 12000
+		return
+	}
 	el := time.Since(start)
 	cancel()
 	runtime.ReadMemStats(&m1)
@@ -344,6 +382,9 @@ func bucket(ms int64) string {
 }
 
 func (o *obs) String() string {
+	if o.n == 0 && o.skipped > 0 {
+		return "skipped-after-abandoned-request"
+	}
 	var cs []string
 	for c := range o.codes {
 		cs = append(cs, c)
@@ -535,6 +576,79 @@ func kindWrite(r *hx.Rand, o *obs) {
 		_, err := srv.DeleteStore(ctx, &openfgav1.DeleteStoreRequest{StoreId: st})
 		return err
 	})
+}
+
+// kindNumeric: finding F14 and its siblings — a numeric condition parameter given as a string with an extreme
+// exponent (or as a huge literal), through every path that reaches the parameter converters: request context,
+// contextual tuple context, stored tuple context (Write, then the queries), AuthZEN properties.
+func kindNumeric(r *hx.Rand, o *obs) {
+	type target struct{ obj, cond, param string }
+	tg := hx.Pick(r, []target{{"doc:c1", "c_int", "x"}, {"doc:c1", "c_int", "u"}, {"doc:c2", "c_dbl", "d"}})
+	val := structpb.NewStringValue(hx.Pick(r, hugeNumbers))
+	if r.Chance(1, 6) {
+		val = structpb.NewNumberValue(hx.Pick(r, []float64{1e308, -1e308, 1e19, 5e-324, math.Inf(1), math.NaN()}))
+	}
+	other := map[string]*structpb.Value{"x": structpb.NewNumberValue(1), "u": structpb.NewNumberValue(2), "d": structpb.NewNumberValue(0.5)}
+	other[tg.param] = val
+	hctx := &structpb.Struct{Fields: other}
+	tk := &openfgav1.CheckRequestTupleKey{Object: tg.obj, Relation: "viewer", User: "user:m"}
+	switch r.Intn(6) {
+	case 0: // request context
+		o.do("Check", func(ctx context.Context) error {
+			_, err := srv.Check(ctx, &openfgav1.CheckRequest{StoreId: baseSt, TupleKey: tk, Context: hctx})
+			return err
+		})
+		o.do("ListObjects", func(ctx context.Context) error {
+			_, err := srv.ListObjects(ctx, &openfgav1.ListObjectsRequest{StoreId: baseSt, Type: "doc", Relation: "viewer", User: "user:m", Context: hctx})
+			return err
+		})
+	case 1: // contextual tuple whose condition context carries the value
+		ct := &openfgav1.ContextualTupleKeys{TupleKeys: []*openfgav1.TupleKey{{Object: "doc:cx", Relation: "viewer", User: "user:m",
+			Condition: &openfgav1.RelationshipCondition{Name: tg.cond, Context: hctx}}}}
+		o.do("Check", func(ctx context.Context) error {
+			_, err := srv.Check(ctx, &openfgav1.CheckRequest{StoreId: baseSt, TupleKey: &openfgav1.CheckRequestTupleKey{Object: "doc:cx", Relation: "viewer", User: "user:m"}, ContextualTuples: ct})
+			return err
+		})
+		o.do("ListUsers", func(ctx context.Context) error {
+			_, err := srv.ListUsers(ctx, &openfgav1.ListUsersRequest{StoreId: baseSt, Object: &openfgav1.Object{Type: "doc", Id: "cx"}, Relation: "viewer",
+				UserFilters: []*openfgav1.UserTypeFilter{{Type: "user"}}, ContextualTuples: ct.GetTupleKeys()})
+			return err
+		})
+	case 2: // stored tuple context
+		ctx0 := context.Background()
+		cs, err := srv.CreateStore(ctx0, &openfgav1.CreateStoreRequest{Name: "c19-numeric"})
+		if err != nil {
+			return
+		}
+		st := cs.GetId()
+		defer func() { _, _ = srv.DeleteStore(ctx0, &openfgav1.DeleteStoreRequest{StoreId: st}) }()
+		_, _ = srv.WriteAuthorizationModel(ctx0, &openfgav1.WriteAuthorizationModelRequest{StoreId: st, TypeDefinitions: baseMod.GetTypeDefinitions(), SchemaVersion: "1.1", Conditions: baseMod.GetConditions()})
+		o.do("Write", func(ctx context.Context) error {
+			_, err := srv.Write(ctx, &openfgav1.WriteRequest{StoreId: st, Writes: &openfgav1.WriteRequestWrites{TupleKeys: []*openfgav1.TupleKey{{Object: "doc:s1", Relation: "viewer", User: "user:m",
+				Condition: &openfgav1.RelationshipCondition{Name: tg.cond, Context: &structpb.Struct{Fields: map[string]*structpb.Value{tg.param: val}}}}}}})
+			return err
+		})
+		o.do("Check", func(ctx context.Context) error {
+			_, err := srv.Check(ctx, &openfgav1.CheckRequest{StoreId: st, TupleKey: &openfgav1.CheckRequestTupleKey{Object: "doc:s1", Relation: "viewer", User: "user:m"}, Context: &structpb.Struct{Fields: map[string]*structpb.Value{"x": structpb.NewNumberValue(1), "u": structpb.NewNumberValue(2), "d": structpb.NewNumberValue(0.5)}}})
+			return err
+		})
+	case 3: // batch
+		o.do("BatchCheck", func(ctx context.Context) error {
+			_, err := srv.BatchCheck(ctx, &openfgav1.BatchCheckRequest{StoreId: baseSt, Checks: []*openfgav1.BatchCheckItem{
+				{TupleKey: tk, Context: hctx, CorrelationId: "a"}, {TupleKey: tk, Context: hctx, CorrelationId: "b"}}})
+			return err
+		})
+	case 4: // streamed
+		o.do("StreamedListObjects", func(ctx context.Context) error {
+			return srv.StreamedListObjects(&openfgav1.StreamedListObjectsRequest{StoreId: baseSt, Type: "doc", Relation: "viewer", User: "user:m", Context: hctx}, &collector{ctx: ctx})
+		})
+	default: // AuthZEN: the value travels as a request context entry
+		o.do("Evaluation", func(ctx context.Context) error {
+			_, err := srv.Evaluation(ctx, &authzenv1.EvaluationRequest{StoreId: baseSt, Subject: &authzenv1.Subject{Type: "user", Id: "m"},
+				Resource: &authzenv1.Resource{Type: "doc", Id: strings.TrimPrefix(tg.obj, "doc:")}, Action: &authzenv1.Action{Name: "viewer"}, Context: hctx})
+			return err
+		})
+	}
 }
 
 func this() *openfgav1.Userset {
@@ -885,6 +999,9 @@ func exec(line string, st *hx.Stats) string {
 			if os.Getenv("C19_STACK") != "" {
 				fmt.Fprintln(os.Stderr, string(debug.Stack()))
 			}
+			if ps, ok := p.(string); ok && strings.Contains(ps, " @ ") {
+				panic(p)
+			}
 			panic(fmt.Sprintf("%v @ %s", p, topFrames()))
 		}
 	}()
@@ -903,6 +1020,8 @@ func exec(line string, st *hx.Stats) string {
 		kindMisc(r, o)
 	case "authzen":
 		kindAuthzen(r, o)
+	case "numeric":
+		kindNumeric(r, o)
 	default:
 		return "badkind"
 	}
@@ -933,7 +1052,7 @@ func topFrames() string {
 }
 
 func gen(r *hx.Rand, n int, tier string, emit func(string), st *hx.Stats) {
-	kinds := []string{"check", "check", "batch", "list", "list", "write", "model", "model", "misc", "authzen"}
+	kinds := []string{"check", "numeric", "batch", "list", "list", "write", "model", "model", "misc", "authzen", "check", "numeric"}
 	for i := 0; i < n; i++ {
 		k := kinds[i%len(kinds)]
 		emit(fmt.Sprintf("c19 %s %d", k, r.U64()>>1))
